@@ -8,9 +8,10 @@ CONSTANTS
     TrackHist = FALSE
     MaxLen = 0
 INVARIANT TypeOK
-INVARIANT ModesAgree
 INVARIANT NoNewKeys
 INVARIANT SamplerConsistent
+INVARIANT ModesAgree
 PROPERTY ObserversNeutral
 PROPERTY SetterFrame
 PROPERTY OptionFrame
+PROPERTY ModeFrame
